@@ -171,7 +171,7 @@ _AS_CACHE: dict = {}
 
 def gen_asm_source(rng, sections=None, random_bytes_p=0.35):
     """AT&T source for GNU as: several sections, code from the vocabulary or raw bytes."""
-    pool = [".text", ".init", ".plt", ".plt.got", ".mycode", ".fini", ".data", ".rodata"]
+    pool = [".text", ".init", ".plt", ".plt.got", ".mycode", ".fini", ".data", ".rodata", "mycode", "__ex_table", ".text.cold", "my.sec-1", "text"]
     if sections is None:
         k = rng.randrange(1, 5)
         sections = [".text"] if rng.random() < 0.5 else []
